@@ -194,7 +194,7 @@ def klass(draw, cx, name, earlier):
 
 @st.composite
 def library(draw, lang="c", min_types=1, max_types=8, min_funcs=1, max_funcs=6, max_vars=3, max_tus=3,
-            symfeatures=False, statics=True, kind_w=None, tu_private=0, versions="maybe"):
+            symfeatures=False, statics=True, kind_w=None, tu_private=0, versions="maybe", tdanon=0):
     if lang == "any":
         lang = _pick(draw, ["c", "c", "cxx"])
     cxx = lang == "cxx"
@@ -269,11 +269,45 @@ def library(draw, lang="c", min_types=1, max_types=8, min_funcs=1, max_funcs=6, 
             else:
                 m["statics"].append({"name": "svar%d" % i, "type": texpr(draw, cx, 0, allow_array=True),
                                      "tu": draw(st.integers(0, ntu - 1)), "static": True})
+    if tdanon and draw(st.integers(0, 99)) < tdanon:
+        add_typedefed_anonymous(draw, m, ntu)
     if tu_private and lang == "c" and ntu >= 2 and draw(st.integers(0, 99)) < tu_private:
         add_tu_private_types(draw, m, ntu, cx)
     if symfeatures:
         add_symbol_features(draw, m, versions)
     return m
+
+
+def add_typedefed_anonymous(draw, m, ntu):
+    """`typedef struct { ... } X;` and `typedef struct { ... } X, Xb;`: an anonymous struct / union known by one or two typedef
+    names only.  Such a type has no tag, so nothing defined before it (or it itself) may refer to it: only structs / unions
+    that no earlier type mentions are candidates.  Both names get a user among the exported functions."""
+    cands = []
+    for i, t in enumerate(m["types"]):
+        if t["kind"] not in ("struct", "union") or t.get("tpl") or t.get("cname") or t.get("bases") or t.get("methods"):
+            continue
+        if any(t["name"] in M.direct_deps(u) for u in m["types"][:i + 1]):
+            continue
+        if any(t["name"] in [b["name"] for b in u.get("bases", [])] for u in m["types"]):
+            continue
+        cands.append(i)
+    for i in cands[:draw(st.integers(1, 2))]:
+        t = m["types"][i]
+        t["tdanon"] = True
+        users = [t["name"]]
+        if draw(st.integers(0, 2)) > 0:
+            alias = t["name"] + "b"
+            t["tdnames"] = [alias]
+            m["types"].insert(i + 1, {"kind": "typedef", "name": alias, "type": ["n", t["name"]], "co": t["name"]})
+            users.append(alias)
+        if draw(st.booleans()):
+            users.reverse()
+        for u in users:
+            f = {"name": "use_" + u, "ret": ["b", "int"], "params": [{"name": "p", "type": ["p", ["n", u]]}], "variadic": False,
+                 "tu": draw(st.integers(0, ntu - 1)), "body": draw(st.integers(0, 3))}
+            if m["lang"] == "cxx":
+                f["extern_c"] = False
+            m["funcs"].append(f)
 
 
 def add_tu_private_types(draw, m, ntu, cx):
